@@ -5,7 +5,9 @@
 From SqlModel Require Import Base PyStr Re Lexer LexFacts SplitDefs Splitter Skeleton SkeletonFacts.
 From SqlModel Require Import RunInvDefs RunInv RunLex RunLexAll.
 From SqlModel.Gen Require Import Atoms Rules CaseTabs KwTabs SplitTab.
-From SqlModel.Inst Require Import Cur C11Run C11RunAll.
+From SqlModel.Inst Require Import Cur C11Run C11RunAll C18Barrier.
+From SqlModel Require Import Node BarrierDefs.
+From SqlModel.Acc Require Import Accessors.
 From Coq Require Import Lia.
 
 (* the regex \s set and the str.isspace() set are the same set *)
@@ -158,6 +160,62 @@ Proof.
 Qed.
 Print Assumptions C11_text_split_run.
 
+(* ---- the statement type of the first statement ------------------------------------------------------------ *)
+Lemma first_nonws_split (w pre : list tok) a0 a r0 rest :
+  w ++ a0 :: r0 = pre ++ a :: rest -> forallb ws_tok w = true -> forallb ws_tok pre = true ->
+  ws_tok a0 = false -> ws_tok a = false -> w = pre /\ a0 = a /\ r0 = rest.
+Proof.
+  revert pre. induction w as [|x w IH]; intros pre E Fw Fp Ha0 Ha.
+  - destruct pre as [|y pre]; cbn [app] in E.
+    + injection E as -> ->. auto.
+    + injection E as -> _. cbn [forallb] in Fp. apply andb_true_iff in Fp. destruct Fp as [Hy _]. congruence.
+  - cbn [forallb] in Fw. apply andb_true_iff in Fw. destruct Fw as [Hx Fw].
+    destruct pre as [|y pre]; cbn [app] in E.
+    + injection E as <- _. congruence.
+    + injection E as -> E. cbn [forallb] in Fp. apply andb_true_iff in Fp. destruct Fp as [_ Fp].
+      destruct (IH pre E Fw Fp Ha0 Ha) as (-> & -> & ->). auto.
+Qed.
+
+Lemma Lrel_first l l' pre a rest : Lrel l l' -> l = pre ++ a :: rest -> forallb ws_tok pre = true -> ws_tok a = false ->
+  exists pre' b rest', l' = pre' ++ b :: rest' /\ forallb ws_tok pre' = true /\ ws_tok b = false /\ tokrel RSp a b.
+Proof.
+  unfold Lrel. intros H E Fp Ha. destruct H as [l l' H0 | w w' l l' Hw Hw' Fw Fw' H0].
+  - destruct H0 as [| a0 b0 r r' Ha0 Hb0 Hab _].
+    + destruct pre; discriminate.
+    + destruct (first_nonws_split [] pre a0 a r rest E eq_refl Fp Ha0 Ha) as (<- & -> & ->).
+      exists [], b0, r'. auto.
+  - destruct H0 as [| a0 b0 r r' Ha0 Hb0 Hab _].
+    + exfalso. rewrite app_nil_r in E. subst w.
+      rewrite forallb_app in Fw. apply andb_true_iff in Fw. destruct Fw as [_ Fw]. cbn [forallb] in Fw.
+      apply andb_true_iff in Fw. destruct Fw as [Fa _]. congruence.
+    + destruct (first_nonws_split w pre a0 a r rest E Fw Fp Ha0 Ha) as (-> & -> & ->).
+      exists w', b0, r'. auto.
+Qed.
+
+Lemma RS_knorm v v' : RS RSp v v' -> knorm v = knorm v'.
+Proof. intros H. unfold knorm. apply join_split_collapse. exact (RS_kw_key v v' H). Qed.
+
+(* the first statement of the two texts has the same type, whenever the guard of C18_barrier holds on both token lists
+   (the leading DML/DDL keyword is preceded by white space only; it may be a compound keyword spelled with any runs) *)
+Theorem C11_text_get_type_run t t' pre ty kw rest :
+  sq RSp false t = sq RSp false t' -> oktextb t = true -> oktextb t' = true ->
+  cur_lex t = Ok (pre ++ (ty, kw) :: rest) -> forallb ws_tok pre = true -> ws_tok (ty, kw) = false ->
+  barrier_guard pre ty kw rest = true ->
+  forall l', cur_lex t' = Ok l' ->
+  (forall pre' kw' rest', l' = pre' ++ (ty, kw') :: rest' -> barrier_guard pre' ty kw' rest' = true) ->
+  exists s ss s' ss', cur_parse t = Ok (s :: ss) /\ cur_parse t' = Ok (s' :: ss')
+                      /\ get_type s = get_type s'.
+Proof.
+  intros Hsq Ho Ho' El Fp Ha Hg l' El' Hg'.
+  pose proof (C11_lex_run_all t t' _ l' Hsq Ho Ho' El El') as HL.
+  destruct (Lrel_first _ _ pre (ty, kw) rest HL eq_refl Fp Ha) as (pre' & [ty' kw'] & rest' & -> & Fp' & Hb & [Hty Hv]).
+  cbn [fst snd] in Hty, Hv. subst ty'.
+  destruct (C18Barrier.C18_barrier_lexed t pre ty kw rest El Hg) as (s & ss & Ep & Eg).
+  destruct (C18Barrier.C18_barrier_lexed t' pre' ty kw' rest' El' (Hg' pre' kw' rest' eq_refl)) as (s' & ss' & Ep' & Eg').
+  exists s, ss, s', ss'. split; [exact Ep|]. split; [exact Ep'|]. rewrite Eg, Eg', (RS_knorm kw kw' Hv). reflexivity.
+Qed.
+Print Assumptions C11_text_get_type_run.
+
 (* example: two statements, runs re-spelled (blank / tab / line breaks / several), ORDER BY with an inner run *)
 Definition ex_sp_a : text :=
   [115;101;108;101;99;116;32;97;44;98;32;32;102;114;111;109;10;32;116;49;32;111;114;100;101;114;32;9;32;98;121;32;120;59;10;10;115;101;108;101;99;116;32;50]%N.
@@ -171,3 +229,18 @@ Example ex_sp_hyps :
      | _, _ => False
      end.
 Proof. split; [vm_compute; reflexivity|]. split; [vm_compute; reflexivity|]. split; [vm_compute; reflexivity|]. vm_compute. repeat split. Qed.
+
+(* example for C11_text_get_type_run: CREATE<2 blanks>OR<LF, blank>REPLACE ... and the single-blank spelling *)
+Definition ex_gt_a : text := [99;114;101;97;116;101;32;32;111;114;10;32;114;101;112;108;97;99;101;32;118;105;101;119;32;118;32;97;115;32;115;101;108;101;99;116;32;49]%N.
+Definition ex_gt_b_kw : text := [99;114;101;97;116;101;32;111;114;32;114;101;112;108;97;99;101]%N.
+Definition ex_gt_b : text := [99;114;101;97;116;101;32;111;114;32;114;101;112;108;97;99;101;32;118;105;101;119;32;118;32;97;115;32;115;101;108;101;99;116;32;49]%N.
+Example ex_gt_hyps :
+  sq RSp false ex_gt_a = sq RSp false ex_gt_b /\ oktextb ex_gt_a = true /\ oktextb ex_gt_b = true
+  /\ match cur_lex ex_gt_a, cur_lex ex_gt_b with
+     | Ok ((ty, kw) :: rest), Ok ((ty', kw') :: rest') =>
+         ws_tok (ty, kw) = false /\ barrier_guard [] ty kw rest = true /\ barrier_guard [] ty' kw' rest' = true
+         /\ List.length kw = 19 /\ List.length kw' = 17
+     | _, _ => False
+     end
+  /\ match cur_parse ex_gt_a with Ok [s] => get_type s = Ok (upper ex_gt_b_kw) | _ => False end.
+Proof. split; [vm_compute; reflexivity|]. split; [vm_compute; reflexivity|]. split; [vm_compute; reflexivity|]. split; vm_compute; repeat split. Qed.
